@@ -15,7 +15,7 @@ import (
 	"verifharness/pbt"
 )
 
-var allHooks = []string{"notify-result", "notify-error", "before-decode", "do-wait", "do-drop", "in-decode"}
+var allHooks = []string{"notify-result", "notify-error", "before-decode", "do-wait", "do-drop", "in-decode", "log"}
 
 func drawHooks(t *rapid.T) []string {
 	var hooks []string
@@ -93,11 +93,11 @@ func (m *machine) checkC24() string {
 				return fmt.Sprintf("call %d returned context.Canceled but was not cancelled", c.idx)
 			}
 		case errors.Is(err, errSendFailed):
-			if c.firstSend != "fail" {
+			if !hasOutcome(c, "fail") {
 				return fmt.Sprintf("call %d returned a send failure that was never injected", c.idx)
 			}
 		case errors.Is(err, errConnClosed):
-			if c.firstSend != "block" || !closedBefore {
+			if !hasOutcome(c, "block") || !closedBefore {
 				return fmt.Sprintf("call %d returned conn-closed without a blocked send + close", c.idx)
 			}
 		case errors.Is(err, &rpc.RetryLimitReachedErr{}):
@@ -112,8 +112,23 @@ func (m *machine) checkC24() string {
 				return fmt.Sprintf("call %d returned the rpc error addressed to call %d", c.idx, o.idx)
 			}
 		}
+		// "returns ... with the decoded result addressed to its own message id": a
+		// result that was delivered while the call was pending and nothing else
+		// happened to it completes the call with that result
+		if c.mustComplete >= 0 && err != nil {
+			return fmt.Sprintf("call %d (message id %d, invocation #%d of that id): a valid result for its id was delivered at log[%d] while it was pending and undisturbed, but Do returned %v", c.idx, c.id, c.attempt+1, c.mustComplete, err)
+		}
 	}
 	return ""
+}
+
+func hasOutcome(c *mcall, what string) bool {
+	for _, o := range c.outcomes {
+		if o == what {
+			return true
+		}
+	}
+	return false
 }
 
 func (m *machine) deriveClasses() {
@@ -146,7 +161,15 @@ func (m *machine) deriveClasses() {
 	}
 	for name, n := range m.sched.Parks {
 		if n > 0 {
+			if strings.HasPrefix(name, "log:") {
+				name = "log"
+			}
 			m.classes["parked:"+name] = true
+		}
+	}
+	for _, c := range m.calls {
+		if c.mustComplete >= 0 {
+			m.classes["result-must-complete"] = true
 		}
 	}
 }
@@ -155,7 +178,7 @@ func (m *machine) classList() []string {
 	var out []string
 	for _, k := range []string{"result-races-cancel-or-close", "duplicate-result", "result-after-return", "foreign-result",
 		"parked:notify-result", "parked:notify-error", "parked:before-decode", "parked:do-wait", "parked:do-drop", "parked:in-decode",
-		"batched-ack", "close-between-send-and-ack", "close-between-ack-and-result", "close-while-send-blocked", "cancel-after-send", "cancel-before-send", "start-after-close"} {
+		"batched-ack", "same-id-reissued", "result-must-complete", "parked:log", "close-during-blocked-resend", "close-between-send-and-ack", "close-between-ack-and-result", "close-while-send-blocked", "cancel-after-send", "cancel-before-send", "start-after-close"} {
 		if m.classes[k] {
 			out = append(out, k)
 		}
@@ -235,6 +258,15 @@ func (m *machine) checkC26() string {
 				m.classes["close-while-send-blocked"] = true
 			}
 			continue
+		}
+		if errors.Is(c.err, errSendFailed) {
+			continue // an injected transmission failure, unrelated to the close: its own outcome
+		}
+		if m.connFirst && errors.Is(c.err, errConnClosed) {
+			continue // the transport failed before the engine was closed: a write error like any other
+		}
+		if len(c.outcomes) > 1 && c.outcomes[len(c.outcomes)-1] == "block" {
+			m.classes["close-during-blocked-resend"] = true
 		}
 		ackIssued := m.firstIdx("ack-issued", c.idx, "")
 		ackDelivered := m.firstIdx("ack-delivered", c.idx, "")
